@@ -31,10 +31,10 @@ var featureNames = []string{"mountType", "hostPath", "intelRdt", "additionalGids
 
 type c06Case struct {
 	NDev     int     `json:"nDev"`
-	Places   [][]int `json:"places"`                     // per feature: list of placements (-1 spec level, k device k)
-	Perm     []int   `json:"perm"`                       // device order
-	Declared string  `json:"declared"`                   // declared cdiVersion
-	OneChar  bool    `json:"oneCharDigitName,omitempty"` // digit-first names are a single digit
+	Places   [][]int `json:"places"`                        // per feature: list of placements (-1 spec level, k device k)
+	Perm     []int   `json:"perm"`                          // device order
+	Declared string  `json:"declared"`                      // declared cdiVersion
+	OneChar  bool    `json:"oneCharDigitName,omitempty"`    // digit-first names are a single digit
 	Pad      int     `json:"plainElementsBefore,omitempty"` // plain list elements placed before (and one after) the featured element
 }
 
